@@ -1,0 +1,18 @@
+//go:build verif
+
+package agent
+
+import "github.com/postalsys/muti-metroo/internal/crypto"
+
+// Verification harness only (C03): the two key-derivation helpers of this
+// package that are plain functions.
+
+// VerifDeriveResponderSessionKey calls deriveResponderSessionKey (file transfer responder).
+func VerifDeriveResponderSessionKey(requestID uint64, remoteEphemeralPub [crypto.KeySize]byte) (*crypto.SessionKey, [crypto.KeySize]byte, error) {
+	return deriveResponderSessionKey(requestID, remoteEphemeralPub)
+}
+
+// VerifDeriveICMPSessionKey calls deriveICMPSessionKey (ICMP initiator).
+func VerifDeriveICMPSessionKey(ephPrivKey *[32]byte, ephPubKey, remotePubKey [32]byte, requestID uint64) (*crypto.SessionKey, error) {
+	return deriveICMPSessionKey(ephPrivKey, ephPubKey, remotePubKey, requestID)
+}
